@@ -201,8 +201,17 @@ func (p *printer) expr(e *E, sp string) {
 				p.tok(k.S, "word", s, "Name")
 			case "num":
 				p.tok(numLit(k.N), "num", s, "Number")
-			default:
+			case "str":
 				p.str(k.S, k.Q, s, "String")
+			default:
+				// an expression key is written in parentheses
+				if k.K == "group" {
+					p.expr(k, s)
+				} else {
+					p.tok("(", "punct", s, "")
+					p.expr(k, "")
+					p.tok(")", "punct", "", "")
+				}
 			}
 			p.tok(":", "punct", "", "")
 			p.expr(a, " ")
